@@ -68,6 +68,10 @@ def cases(tier, seed):
                 if t == "pair_big" and tier == "quick" and m not in ("rewrite_same_len", "recreate_other", "touch"):
                     continue
                 out.append({"tree": t, "f": f, "mutation": m, "tier": tier})
+    # a file system that keeps whole seconds only (ext3, FAT, many network mounts): `group` starts in the second half of
+    # second T, the file is rewritten (same length) during second T+1 and therefore carries the time T+1.000
+    for f in ("r/a/f1", "r/b/f2"):
+        out.append({"tree": "pair", "f": f, "mutation": "rewrite_whole_second", "tier": tier})
     # the same question in time zones east and west of UTC (the report timestamp carries a UTC offset)
     for tz in ("JST-9", "PST8", "<+0530>-5:30"):
         for f in ("r/a/f1", "r/b/f2"):
@@ -367,6 +371,8 @@ def evaluate(case):
             # writes to the pipe: nothing is removed, so the statement is not concerned (noted in DESIGN.md); the
             # dedupe commands, however, must cope with a pipe at a reported path
             positions = [("between", None)]
+        if case["mutation"] == "rewrite_whole_second":
+            positions = [("between", None)]
         if case.get("only"):
             positions = [tuple(case["only"][0])]
             ops = [case["only"][1]]
@@ -380,6 +386,26 @@ def evaluate(case):
                 dd = S.same_history(events, res["events"], upto=min(k, len(res["events"])))
                 if dd:
                     raise C.MachineryError("prefix diverged before event %d: %s" % (k, dd))
+            elif case["mutation"] == "rewrite_whole_second":
+                import re
+                import datetime
+                for attempt in range(8):
+                    # start `group` at T.55 ... T.70
+                    frac = time.time() % 1.0
+                    time.sleep(((0.55 - frac) % 1.0) if not 0.55 <= frac <= 0.70 else 0)
+                    res = S.run_with_shim(sc, args, [sc.tree], "rc", env_extra=tzenv)
+                    m = re.search(rb"# Timestamp: (\d+-\d+-\d+ \d+:\d+:\d+)\.(\d+) \+0000", res["out"])
+                    if res["rc"] == 0 and m and int(m.group(2)[:1]) >= 5:
+                        break
+                else:
+                    raise C.MachineryError("could not start `group` in the second half of a second: %r" % res["out"][:200])
+                t_whole = int(datetime.datetime.strptime(m.group(1).decode(), "%Y-%m-%d %H:%M:%S").replace(
+                    tzinfo=datetime.timezone.utc).timestamp()) + 1
+                time.sleep(max(0.0, t_whole + 0.05 - time.time()))
+                old_bytes = C.read_file(f_abs)
+                with open(f_abs, "r+b") as fh:
+                    fh.write(bytes((x + 1) % 256 for x in old_bytes))
+                os.utime(f_abs, (t_whole, t_whole))      # what such a file system records for a write during T+1
             else:
                 res = S.run_with_shim(sc, args, [sc.tree], "rc", env_extra=tzenv)
                 mutate(f_abs, case["mutation"], sc)
